@@ -38,7 +38,7 @@ tvars == <<vars, l>>
 \* formats whose shorter message is a complete older version: none at the outer level
 OlderComplete == {}
 
-TraceInit == /\ input = <<>> /\ prog = <<>> /\ cursor = 0 /\ alloc = 0 /\ outcome = "running" /\ got = <<>>
+TraceInit == /\ input = <<>> /\ prog = <<>> /\ cursor = 0 /\ alloc = 0 /\ outcome = "running" /\ got = <<>> /\ tags = <<>>
              /\ l = 1 /\ HwmInit
 
 Step1(e) == IsEv(l, e) /\ l' = l + 1 /\ UNCHANGED vars
